@@ -57,41 +57,97 @@ Inductive nstate := NNone | NOk | NCorrupt | NBadVersion.
 Record bstate := mk_bstate { sblk : blk; smeta : mstate; sdel : dstate; snoc : nstate }.
 Definition sid (x : bstate) : Z := bid (sblk x).
 
-(* a read of the sync, identified by what it reads *)
-Inductive rid := RList | RExists (i : Z) | RMeta (i : Z) | RDel (i : Z) | RNoc (i : Z).
+(* a read of the sync, identified by what it reads: the listing, an Exists probe, or the
+   Get of an object — which can fail when it is opened (RMeta/RDel/RNoc) or in the middle
+   of the body, after Get returned a reader (R...Body) *)
+Inductive rid := RList | RExists (i : Z)
+  | RMeta (i : Z) | RMetaBody (i : Z)
+  | RDel (i : Z) | RDelBody (i : Z)
+  | RNoc (i : Z) | RNocBody (i : Z).
 Definition faults := rid -> bool.
 
 Definition has_meta (x : bstate) : bool := match smeta x with MMissing => false | _ => true end.
+Definition has_del (x : bstate) : bool := match sdel x with DNone => false | _ => true end.
+Definition has_noc (x : bstate) : bool := match snoc x with NNone => false | _ => true end.
+
+(* ---- classification of read errors ---------------------------------------------------
+   what reading one object yields: its content, or an error of one of three kinds *)
+Inductive rerr :=
+| ENotFound         (* the object does not exist *)
+| ECorruptContent   (* read completely, but not JSON *)
+| EOther.           (* any other error: Get failed, the body read failed, unexpected version *)
+
+(* loadMeta + the switch in fetchMetadata *)
+Inductive mclass := MLoaded | MPartialNoMeta | MPartialCorrupted | MIncompleteView.
+Definition classify_meta (r : option rerr) : mclass :=
+  match r with
+  | None => MLoaded
+  | Some ENotFound => MPartialNoMeta
+  | Some ECorruptContent => MPartialCorrupted
+  | Some EOther => MIncompleteView
+  end.
+
+(* ReadMarker + the marker filters *)
+Inductive kclass := KMarked | KNoMarker | KIgnoredCorrupted | KFilterError.
+Definition classify_marker (r : option rerr) : kclass :=
+  match r with
+  | None => KMarked
+  | Some ENotFound => KNoMarker
+  | Some ECorruptContent => KIgnoredCorrupted
+  | Some EOther => KFilterError
+  end.
+
+Definition meta_faulted (f : faults) (x : bstate) : bool := f (RMeta (sid x)) || f (RMetaBody (sid x)).
+Definition del_faulted (f : faults) (x : bstate) : bool := f (RDel (sid x)) || f (RDelBody (sid x)).
+Definition noc_faulted (f : faults) (x : bstate) : bool := f (RNoc (sid x)) || f (RNocBody (sid x)).
+
+(* result of reading <block>/meta.json under fault set f *)
+Definition meta_result (f : faults) (x : bstate) : option rerr :=
+  match smeta x with
+  | MMissing => Some ENotFound
+  | MOk => if meta_faulted f x then Some EOther else None
+  | MCorrupt => if meta_faulted f x then Some EOther else Some ECorruptContent
+  | MBadVersion => Some EOther
+  end.
+Definition del_result (f : faults) (x : bstate) : option rerr :=
+  match sdel x with
+  | DNone => if f (RDel (sid x)) then Some EOther else Some ENotFound
+  | DOk _ _ => if del_faulted f x then Some EOther else None
+  | DCorrupt => if del_faulted f x then Some EOther else Some ECorruptContent
+  | DBadVersion => Some EOther
+  end.
+Definition noc_result (f : faults) (x : bstate) : option rerr :=
+  match snoc x with
+  | NNone => if f (RNoc (sid x)) then Some EOther else Some ENotFound
+  | NOk => if noc_faulted f x then Some EOther else None
+  | NCorrupt => if noc_faulted f x then Some EOther else Some ECorruptContent
+  | NBadVersion => Some EOther
+  end.
+
+Definition is_other (r : option rerr) : bool := match r with Some EOther => true | _ => false end.
 
 (* loadMeta succeeded *)
 Definition loaded (f : faults) (x : bstate) : bool :=
-  match smeta x with MOk => negb (f (RMeta (sid x))) | _ => false end.
+  match classify_meta (meta_result f x) with MLoaded => true | _ => false end.
 
-(* fetchMetadata: `default:` arm of the switch — metaErrs (incomplete view) *)
+(* fetchMetadata: `default:` arm of the switch — metaErrs (incomplete view); a missing
+   meta.json is found by the listing, not by a failing read *)
 Definition meta_err (f : faults) (x : bstate) : bool :=
-  match smeta x with
-  | MOk | MCorrupt => f (RMeta (sid x))
-  | MBadVersion => true
-  | MMissing => false
-  end.
+  has_meta x && match classify_meta (meta_result f x) with MIncompleteView => true | _ => false end.
 
 (* partial blocks: no meta.json, or not JSON *)
 Definition is_partial (f : faults) (x : bstate) : bool :=
-  match smeta x with
-  | MMissing => true
-  | MCorrupt => negb (f (RMeta (sid x)))
-  | _ => false
-  end.
+  match classify_meta (meta_result f x) with MPartialNoMeta | MPartialCorrupted => true | _ => false end.
 
-(* IgnoreDeletionMarkFilter on one loaded block: error? *)
+(* IgnoreDeletionMarkFilter / GatherNoCompactionMarkFilter on one block: error? *)
 Definition del_err (f : faults) (x : bstate) : bool :=
-  f (RDel (sid x)) || match sdel x with DBadVersion => true | _ => false end.
+  match classify_marker (del_result f x) with KFilterError => true | _ => false end.
+Definition noc_err (f : faults) (x : bstate) : bool :=
+  match classify_marker (noc_result f x) with KFilterError => true | _ => false end.
+
 Definition del_hidden (x : bstate) : bool := match sdel x with DOk true _ => true | _ => false end.
 Definition del_marked (x : bstate) : bool := match sdel x with DOk _ _ => true | _ => false end.
 Definition del_cleanable (x : bstate) : bool := match sdel x with DOk _ true => true | _ => false end.
-
-Definition noc_err (f : faults) (x : bstate) : bool :=
-  f (RNoc (sid x)) || match snoc x with NBadVersion => true | _ => false end.
 
 Definition in_ids (l : list Z) (x : bstate) : bool := mem (sid x) l.
 
@@ -137,9 +193,11 @@ Definition performed (concurrent : bool) (f : faults) (b : list bstate) (r : rid
   match r with
   | RList => true
   | RExists i => concurrent && existsb (fun x => sid x =? i) b
-  | RMeta i => existsb (fun x => (sid x =? i) && has_meta x) b
+  | RMeta i | RMetaBody i => existsb (fun x => (sid x =? i) && has_meta x) b
   | RDel i => existsb (fun x => (sid x =? i) && loaded f x) b
+  | RDelBody i => existsb (fun x => (sid x =? i) && loaded f x && has_del x) b
   | RNoc i => existsb (fun x => sid x =? i) (noc_read f b)
+  | RNocBody i => existsb (fun x => (sid x =? i) && has_noc x) (noc_read f b)
   end.
 
 (* the reads of a fault-free sync, in one sequential order *)
@@ -147,13 +205,17 @@ Definition read_order (concurrent : bool) (b : list bstate) : list rid :=
   let f := fun _ => false in
   RList :: (if concurrent then map (fun x => RExists (sid x)) b else [])
   ++ map (fun x => RMeta (sid x)) (filter has_meta b)
+  ++ map (fun x => RMetaBody (sid x)) (filter has_meta b)
   ++ map (fun x => RDel (sid x)) (filter (loaded f) b)
-  ++ map (fun x => RNoc (sid x)) (noc_read f b).
+  ++ map (fun x => RDelBody (sid x)) (filter has_del (filter (loaded f) b))
+  ++ map (fun x => RNoc (sid x)) (noc_read f b)
+  ++ map (fun x => RNocBody (sid x)) (filter has_noc (noc_read f b)).
 
 Definition rid_eqb (a b : rid) : bool :=
   match a, b with
   | RList, RList => true
-  | RExists i, RExists j | RMeta i, RMeta j | RDel i, RDel j | RNoc i, RNoc j => i =? j
+  | RExists i, RExists j | RMeta i, RMeta j | RDel i, RDel j | RNoc i, RNoc j
+  | RMetaBody i, RMetaBody j | RDelBody i, RDelBody j | RNocBody i, RNocBody j => i =? j
   | _, _ => false
   end.
 
@@ -161,15 +223,19 @@ Definition rid_eqb (a b : rid) : bool :=
 Definition only (r : rid) : faults := rid_eqb r.
 
 (* the trace view of the same sync: reads with outcomes (links to part (1)) *)
+Definition outcome_of (r : option rerr) (bad_version : bool) : outcome :=
+  match r with
+  | None => Found
+  | Some ENotFound => NotFound
+  | Some ECorruptContent => Corrupt
+  | Some EOther => if bad_version then BadVersion else Transient
+  end.
 Definition meta_outcome (f : faults) (x : bstate) : outcome :=
-  if f (RMeta (sid x)) then Transient
-  else match smeta x with MOk => Found | MCorrupt => Corrupt | MBadVersion => BadVersion | MMissing => NotFound end.
+  outcome_of (meta_result f x) (match smeta x with MBadVersion => negb (meta_faulted f x) | _ => false end).
 Definition del_outcome (f : faults) (x : bstate) : outcome :=
-  if f (RDel (sid x)) then Transient
-  else match sdel x with DNone => NotFound | DOk _ _ => Found | DCorrupt => Corrupt | DBadVersion => BadVersion end.
+  outcome_of (del_result f x) (match sdel x with DBadVersion => negb (del_faulted f x) | _ => false end).
 Definition noc_outcome (f : faults) (x : bstate) : outcome :=
-  if f (RNoc (sid x)) then Transient
-  else match snoc x with NNone => NotFound | NOk => Found | NCorrupt => Corrupt | NBadVersion => BadVersion end.
+  outcome_of (noc_result f x) (match snoc x with NBadVersion => negb (noc_faulted f x) | _ => false end).
 
 Definition trace (concurrent : bool) (f : faults) (b : list bstate) : list read :=
   (KList, if f RList then Transient else Found)
@@ -189,11 +255,16 @@ Definition gc_ops (cleaner : bool) (v : sview) : list cop :=
   let marked := map sid (v_marks v) in
   map CMarkDeletion (filter (fun i => negb (mem i marked)) (v_dups v)).
 
-Definition iteration2 (concurrent cleaner : bool) (f : faults) (b : list bstate)
+(* cmd/thanos compactMainFn: after the compaction the partial uploads that have been
+   untouched for PartialUploadThresholdAge are removed ([old]: this bucket's objects are) *)
+Definition partial_ops (old : bool) (v : sview) : list cop :=
+  if old then map CDelete (v_partial v) else [].
+
+Definition iteration2 (concurrent cleaner old : bool) (f : faults) (b : list bstate)
     (compact_work : sview -> list cop) : list cop :=
   match sync concurrent f b with
   | None => []
-  | Some v => cleaner_ops cleaner v ++ gc_ops cleaner v ++ compact_work v
+  | Some v => cleaner_ops cleaner v ++ gc_ops cleaner v ++ compact_work v ++ partial_ops old v
   end.
 
 (* ---- (2) statement-order facts ------------------------------------------------ *)
@@ -358,11 +429,12 @@ Definition no_faults : faults := fun _ => false.
 (* b: the bucket as generated; base: reads (kind, outcome) of a stand-alone SyncMetas
    on it; metas / partial: Syncer.Metas() / Partial() afterwards; sync_failed;
    base_mut: mutating ops of the sync; deleted / gc_marked: meta-only blocks removed /
-   newly marked for deletion by a fault-free Compact; full_mut: its mutating ops;
+   newly marked for deletion by a fault-free iteration (Compact, then sync and partial-upload
+   cleanup as in compactMainFn); old: the objects are older than PartialUploadThresholdAge; full_mut: its mutating ops;
    runs: Compact with exactly one read of the first sync failing: which read,
    whether Compact returned an error, mutating ops issued after the fault *)
 Inductive case :=
-| CSync2 (concurrent cleaner : bool) (b : list bstate) (base : list read)
+| CSync2 (concurrent cleaner old : bool) (b : list bstate) (base : list read)
          (metas partial : list Z) (sync_failed : bool) (base_mut : nat)
          (deleted gc_marked : list Z) (full_mut : nat)
          (runs : list (rid * bool * nat)).
@@ -392,7 +464,7 @@ Definition is_none {A} (o : option A) : bool := match o with None => true | Some
 
 Definition corr_ok (c : case) : bool :=
   match c with
-  | CSync2 conc cleaner b base metas partial sync_failed base_mut deleted gc_marked full_mut runs =>
+  | CSync2 conc cleaner old b base metas partial sync_failed base_mut deleted gc_marked full_mut runs =>
       Nat.eqb base_mut 0
       && same_reads base (trace conc no_faults b)
       && Bool.eqb (sync_error base) sync_failed
@@ -400,20 +472,20 @@ Definition corr_ok (c : case) : bool :=
          | None => sync_failed && Nat.eqb full_mut 0
          | Some v =>
              negb sync_failed && set_eqb metas (v_metas v) && set_eqb partial (v_partial v)
-             && set_eqb deleted (cop_ids (cleaner_ops cleaner v))
+             && set_eqb deleted (cop_ids (cleaner_ops cleaner v ++ partial_ops old v))
              && set_eqb gc_marked (cop_ids (gc_ops cleaner v))
          end
       && forallb (fun r => let '(x, cerr, after) := r in
            Bool.eqb (is_none (sync conc (only x) b)) cerr
-           && Nat.eqb (List.length (iteration2 conc cleaner (only x) b (fun _ => repeat (COther 0) after)))
+           && Nat.eqb (List.length (iteration2 conc cleaner old (only x) b (fun _ => repeat (COther 0) after)))
                       (if is_none (sync conc (only x) b) then 0%nat
-                       else List.length (iteration2 conc cleaner (only x) b (fun _ => repeat (COther 0) after)))
+                       else List.length (iteration2 conc cleaner old (only x) b (fun _ => repeat (COther 0) after)))
            && (if is_none (sync conc (only x) b) then Nat.eqb after 0 else true)) runs
   end.
 
 Definition pred_ok (c : case) : bool :=
   match c with
-  | CSync2 conc cleaner b base metas partial sync_failed base_mut deleted gc_marked full_mut runs =>
+  | CSync2 conc cleaner old b base metas partial sync_failed base_mut deleted gc_marked full_mut runs =>
       (if sync_failed then Nat.eqb full_mut 0 else true)
       && forallb (fun r => let '(x, cerr, after) := r in
            if performed conc (only x) b x then cerr && Nat.eqb after 0 else true) runs
